@@ -53,6 +53,16 @@ def decode_value(v):
     raise ValueError(t)
 
 
+class Missing(dict):
+    """a dict subclass with a __missing__ hook whose copy() keeps the subclass (like defaultdict / Counter)"""
+
+    def __missing__(self, key):
+        return b"MISSING"
+
+    def copy(self):
+        return Missing(self)
+
+
 class Run:
     def __init__(self, case):
         self.case = case
@@ -81,13 +91,6 @@ class Run:
                 # the source is a dict all right, but of a subclass (what json/collections hand out): the persistent dictionary
                 # must still behave like a plain dict
                 import collections
-
-                class Missing(dict):
-                    def __missing__(self, key):
-                        return b"MISSING"
-
-                    def copy(self):
-                        return Missing(self)
                 self.source = {"defaultdict": lambda s: collections.defaultdict(bytes, s), "ordered": collections.OrderedDict,
                                "missing_hook": Missing}[kind](self.source)
             self.d = self.cls().from_dict(self.source, self.path)
